@@ -174,10 +174,12 @@ class BaseSection(base.Sectionable):
         if self.name == new_value:
             return
 
-        # Make sure name cannot be set to None or empty
+        # Make sure name cannot be set to None or empty; the id used instead
+        # has to pass the sibling check as well.
         if not new_value:
-            self._name = self._id
-            return
+            new_value = self._id
+            if self.name == new_value:
+                return
 
         curr_parent = self.parent
         if hasattr(curr_parent, "sections") and new_value in curr_parent.sections:
